@@ -1058,9 +1058,9 @@ impl<'a> World<'a> {
         let op = Op::Send { ep, to, ch, mode, len: payload.len() as u32, tag };
         // preconditions of send(): skip operations the API forbids
         let ok = match (&self.eps[ep].obj, &self.plan.endpoints[ep].kind) {
-            (EpObj::Hc(_), EndpointKind::Hc { spec, .. }) => {
-                (payload.len() as u64) <= ceil_fragment(spec.tx_alloc_limit) && payload.len() <= uflow::MAX_PACKET_SIZE && (ch as usize) < uflow::CHANNEL_COUNT
-            }
+            // a packet larger than the peer's advertised allocation is legal to submit: the
+            // sender discards it at once (it is never accepted, see `accepted` below)
+            (EpObj::Hc(_), EndpointKind::Hc { .. }) => payload.len() <= uflow::MAX_PACKET_SIZE && (ch as usize) < uflow::CHANNEL_COUNT,
             (EpObj::Client(_), EndpointKind::Client { cfg, .. }) => (payload.len() as u64) <= cfg.max_packet_size && (ch as usize) < uflow::CHANNEL_COUNT,
             (EpObj::Server(s), EndpointKind::Server { cfg, .. }) => {
                 (payload.len() as u64) <= cfg.max_packet_size
@@ -1074,7 +1074,10 @@ impl<'a> World<'a> {
             return;
         }
         let accepted = match self.probe(ep) {
-            Probe::Hc(_) => true,
+            Probe::Hc(_) => match &self.plan.endpoints[ep].kind {
+                EndpointKind::Hc { spec, .. } => (payload.len() as u64) <= ceil_fragment(spec.tx_alloc_limit),
+                _ => true,
+            },
             Probe::Client(p) => p.state <= 1,
             Probe::Server(p) => to.map_or(false, |t| p.clients.iter().any(|c| c.address == self.addrs[t] && c.state == 1)),
             Probe::Rate(_) | Probe::None => false,
